@@ -10,7 +10,10 @@ from . import spec
 U32 = 2 ** 32 - 1
 I32_MIN, I32_MAX = -2 ** 31, 2 ** 31 - 1
 
-ALPHABET = ["a", "Z", "0", " ", "_", "-", "é", "ß", "Ж", "中", "日", "́", "€", "😀", "𝄞", "\t", "~", "'", '"', "/"]
+ALPHABET = ["a", "Z", "0", " ", "_", "-", "é", "ß", "Ж", "中", "日", "́", "€", "😀", "𝄞", "\t", "~", "'", '"', "/",
+            "\ufeff", "\u200b", "\xa0", "\n", "\r", "\x01", "\x7f", "\ufffd", "\u2028", "\U0010ffff", "\ue000", "\\", "%", "{"]
+# characters that text-handling layers like to strip or reinterpret when they come FIRST or LAST
+EDGE_CHARS = ["\ufeff", " ", "\t", "\n", "\xa0", "\u200b", "\ufffe", "\x01"]
 
 NOTE_VALUES = list(range(0, 121)) + [128, 129, 130, 131, 132, 133, 134, 140]
 MODULE_FLAG_BITS = [0, 1, 3, 4, 6, 7, 8, 10, 11, 13, 14, 15, 16, 17, 18, 19, 20, 21, 22, 23, 24, 25]
@@ -52,7 +55,12 @@ class Gen:
     def text(self, max_chars=12, allow_empty=True):
         r = self.rng
         n = r.randint(0 if allow_empty else 1, max_chars)
-        return "".join(r.choice(ALPHABET) for _ in range(n))
+        s = "".join(r.choice(ALPHABET) for _ in range(n))
+        if s and r.random() < 0.12:
+            s = r.choice(EDGE_CHARS) + s[1:]
+        if s and r.random() < 0.08:
+            s = s[:-1] + r.choice(EDGE_CHARS)
+        return s
 
     def module_name(self):
         """Names whose UTF-8 form straddles byte 30-34 with multi-byte characters, and ordinary ones."""
@@ -67,6 +75,8 @@ class Gen:
         s = ""
         while len(s.encode("utf8")) < target:
             s += r.choice(ALPHABET)
+        if r.random() < 0.1:
+            s = r.choice(EDGE_CHARS) + s[1:]
         return s
 
     def version(self, modern=True):
@@ -254,6 +264,14 @@ class Gen:
         if r.random() < 0.25:
             pts = list(defaults)
         top = 255
+        if r.random() < 0.2:
+            # an envelope that differs from a freshly constructed one in exactly ONE field (the builder completes the
+            # description with the constructed values of the other fields)
+            full = {"points": pts, "sustain_point": self.pick(0, top, 0), "loop_start_point": self.pick(0, top, 0), "loop_end_point": self.pick(0, top, 0),
+                    "enable": r.random() < 0.5, "sustain": r.random() < 0.5, "loop": r.random() < 0.5,
+                    "ctl_index": self.pick(1, 255, 1), "gain_pct": self.pick(0, 255, 100), "velocity": self.pick(0, 255, 0)}
+            full["only"] = r.choice(["ctl_index", "ctl_index", "gain_pct", "velocity", "sustain_point", "loop_start_point", "loop_end_point", "enable", "sustain", "loop", "points"])
+            return full
         return {"points": pts,
                 "sustain_point": self.pick(0, top, 0), "loop_start_point": self.pick(0, top, 0), "loop_end_point": self.pick(0, top, 0),
                 "enable": r.random() < 0.5, "sustain": r.random() < 0.5, "loop": r.random() < 0.5,
